@@ -104,7 +104,9 @@ static std::string check_ct(const KV &c) {
     Bytes systape = sl(all, 250, 128);
     Sec wsec(Bytes((uint8_t *)words.data(), (uint8_t *)words.data() + words.size() * 8));
     Sec ssec(systape);
+#ifndef CT_REAL_MIXER
     tape_words_set((const uint64_t *)wsec.p, words.size());
+#endif      // with CT_REAL_MIXER the library's own masking-word generator runs, seeded from the (secret) system tape
     tape_sys_set(ssec.p, ssec.n, nullptr, 0);
     Pubb n(nonce), a(ad);
 
@@ -218,7 +220,9 @@ static std::string check_ct(const KV &c) {
         (void)rc;
     }
     unsigned after = VALGRIND_COUNT_ERRORS;
+#ifndef CT_REAL_MIXER
     tape_words_set(nullptr, 0);
+#endif
     tape_sys_set(nullptr, 0, nullptr, 0);
     if (after != before)
         return std::string(PNAME[prim]) + " (alg " + num(alg) + ", adlen " + num(adlen) + ", mlen " + num(mlen) + ", keylen " + num(keylen) + ", outlen " + num(outlen) + "): memcheck reported " + num(after - before) + " secret-dependent branch/address use(s)";
